@@ -242,9 +242,46 @@ def check_fresh_per_iteration(ck: Checker, rule: str, fn: Func) -> int:
     return n
 
 
+def check_leaked_loopvar(ck: Checker, rule: str, fns: Iterable[Func]) -> int:
+    """The variable of a `for` loop must not be read, after that loop, inside another loop or a comprehension: it then
+    stands for the *last* element only, while the surrounding code runs once per element (`[(p, change.new.oid, i) for
+    p, i in infos.items()]` after `for change in ...` files every path under the last change's object id)."""
+    n_checked = 0
+    for fn in fns:
+        g = ck.cfg(fn)
+        for h in g.nodes.values():
+            if h.kind != "for":
+                continue
+            tnames = {x.id for x in ast.walk(h.ast.target) if isinstance(x, ast.Name)}
+            if not tnames:
+                continue
+            n_checked += 1
+            after = g.reach([d for lab, d in h.succ if lab == "F"], skip_node=lambda y, h=h: y.id == h.id, include_start=True)
+            for xid in after:
+                x = g.nodes[xid]
+                if h.id in x.loops or x.id == h.id:
+                    continue
+                for e in node_exprs(x):
+                    for comp in walk_expr(e):
+                        multi = isinstance(comp, (ast.ListComp, ast.SetComp, ast.DictComp, ast.GeneratorExp))
+                        if not multi and not x.loops:
+                            continue
+                        scope = comp if multi else e
+                        bound = {y.id for g_ in getattr(scope, "generators", []) for y in ast.walk(g_.target) if isinstance(y, ast.Name)}
+                        for nm in walk_expr(scope):
+                            if isinstance(nm, ast.Name) and isinstance(nm.ctx, ast.Load) and nm.id in tnames and nm.id not in bound:
+                                defs = reaching_defs(g, x.id, nm.id)
+                                if defs and all(d.id == h.id for d in defs):
+                                    ck.fail(rule, fn, x, f"`{nm.id}` is the variable of the loop at line {getattr(h.ast, 'lineno', '?')} and is read here, after that loop, inside {'a comprehension' if multi else 'another loop'}: it stands for the last element only, so every element handled here is paired with the last one's value",
+                                            construct=f"{x.text()[:40]} / loop variable {nm.id} after its loop")
+                        if not multi:
+                            break
+    return n_checked
+
+
 def run_all(ck: Checker, rule: str, *mods: str, fresh_in: Iterable[Func] = ()) -> None:
     fns = module_funcs(ck, *mods)
-    n = check_oneshot(ck, rule, fns) + check_oneshot_args(ck, rule, fns) + check_chained_mutable(ck, rule, fns) + check_shared_return(ck, rule, fns)
+    n = check_oneshot(ck, rule, fns) + check_oneshot_args(ck, rule, fns) + check_chained_mutable(ck, rule, fns) + check_shared_return(ck, rule, fns) + check_leaked_loopvar(ck, rule, fns)
     for f in fresh_in:
         n += check_fresh_per_iteration(ck, rule, f)
     ck.extra_decided.append(f"{rule}: in {', '.join(mods)} no one-shot iterator is consumed in a loop or twice, no `a = b = []` shares an accumulator, no function hands out a module-level mutable container" + (", and containers stored per loop iteration are created per iteration" if list(fresh_in) else ""))
